@@ -1026,8 +1026,21 @@ func (c *octx) batchCancel() *eng.Violation {
 					return c.viol("items-started-after-cancel", "batch node %d (concurrency %d): task %s started %d executions after the cancellation (at most one already-committed execution per task that did not cancel itself is allowed)", mb.N, mb.Conc, ev.Task, after[ev.Task])
 				}
 			}
+			if len(bv.post) > 1 {
+				return c.viol("cancel-post-count", "batch node %d: post was called %d times in the cancelled run", mb.N, len(bv.post))
+			}
 			if e.S3 == "matches-ctx" {
 				continue
+			}
+			if len(bv.post) == 1 && e.S2 != "nil" {
+				// post was called (once) and failed: its error is the run's error
+				own := false
+				for _, pe := range c.res.Events {
+					own = own || (pe.Kind == "post_end" && pe.N == mb.N && pe.S1 == "err:"+e.S2)
+				}
+				if own {
+					continue
+				}
 			}
 			if e.S2 != "nil" {
 				return c.viol("cancel-wrong-error", "batch node %d: the cancelled run returned error %q, which does not match the context's error", mb.N, e.S2)
